@@ -109,7 +109,7 @@ Lemma hinv_links_eq : forall D h h', hinv D h -> links_eq h h' ->
   (forall a c', findw h' a = Some c' -> ~ In a D -> 1 <= w_ref c') -> hinv D h'.
 Proof.
   intros D h h' HI L Href.
-  destruct HI as [K P PL O F R C I RP Q Dg NW NWR NQ].
+  destruct HI as [K P PL O F R C I RP Q QK Dg NW NWR NQ].
   constructor.
   - intros a c' Hf'. destruct (links_eq_find_rev h h' a c' L Hf') as [c [Hf [_ [Hfi _]]]].
     destruct (K a c Hf) as [l [Hc Hl]]. exists l. split.
@@ -138,6 +138,7 @@ Proof.
       destruct (Hq3 q cq Hfq) as [x [p [cx [H1 [H2 [H3 [H4 H5]]]]]]].
       destruct (links_eq_find h h' x cx L H3) as [cx' [H3' [Hp' _]]].
       exists x, p, cx'. repeat split; auto; try congruence. eapply links_eq_anc; eauto.
+  - intros q cq Hfq. rewrite (le_reqs h h' L) in Hfq. eauto.
   - rewrite (le_drag h h' L). exact Dg.
   - intros a Ha. rewrite (le_nextw h h' L). apply NW. intro Hn. apply Ha. apply (links_eq_none h h' a L). exact Hn.
   - rewrite (le_nextw h h' L). exact NWR.
